@@ -1,2 +1,130 @@
-/-! Line driver for C11 (stub; replaced when the model is written). -/
-def main : IO Unit := pure ()
+import MpVerif.C11.ModelParse
+import Std.Data.HashMap
+/-!
+Line driver for C11.  Input (one op per line):
+
+  T <tid>                                   start an empty option declaration list `tid`
+  O <tid> <kind> <chk> x<hex>,x<hex>,...    declare an option (first word = name, rest = inline synonyms)
+  C <cid> <tid> <noEcho> <cmdLineFlag> <throwing> x<solver> x<exepath> <env> <argv>
+       env  = `-` or x<name>=x<value>;...   (putenv calls in order)
+       argv = `N` (null pointer) or `A` followed by `,x<hex>` per argument
+
+Output: one line per op.  `C` prints
+  R <cid> <outcome> <ret> | <errs> | <values by slot> | <echo calls>
+No logic here: parsing/printing only, everything else is `MpVerif.C11.parseOptions`.
+-/
+open MpVerif.C11
+
+def hexDigit? (c : Char) : Option Nat :=
+  if '0' ≤ c && c ≤ '9' then some (c.toNat - 48)
+  else if 'a' ≤ c && c ≤ 'f' then some (c.toNat - 87)
+  else none
+
+def unhexAux : List Char → Bytes → Option Bytes
+  | [], acc => some acc.reverse
+  | [_], _ => none
+  | a :: b :: r, acc =>
+    match hexDigit? a, hexDigit? b with
+    | some x, some y => unhexAux r (UInt8.ofNat (16 * x + y) :: acc)
+    | _, _ => none
+
+/-- `x<hex>` ↦ bytes -/
+def unhex (s : String) : Option Bytes :=
+  match s.toList with
+  | 'x' :: r => unhexAux r []
+  | _ => none
+
+def hexChar (n : Nat) : Char := if n < 10 then Char.ofNat (48 + n) else Char.ofNat (87 + n)
+
+def hex (b : Bytes) : String :=
+  String.ofList (b.foldr (fun c acc => hexChar (c.toNat / 16) :: hexChar (c.toNat % 16) :: acc) [])
+
+def parseKind : String → Option Kind
+  | "int" | "sint" | "sll" => some .int
+  | "dbl" | "sdbl" => some .dbl
+  | "str" | "sstr" => some .str
+  | "flag" => some .flag
+  | _ => none
+
+def parseChk : String → Option IntChk
+  | "any" => some .any | "nonneg" => some .nonneg | "bool01" => some .bool01
+  | _ => none
+
+def parseBool : String → Option Bool
+  | "0" => some false | "1" => some true | _ => none
+
+def parseEnv (s : String) : Option Env :=
+  if s == "-" then some []
+  else (s.splitOn ";").mapM (fun kv =>
+    match kv.splitOn "=" with
+    | [k, v] => do pure ((← unhex k), (← unhex v))
+    | _ => none)
+
+def parseArgv (s : String) : Option (Option (List Bytes)) :=
+  match s.splitOn "," with
+  | "N" :: [] => some none
+  | "A" :: items => (items.mapM unhex).map some
+  | _ => none
+
+def showVal : Val → String
+  | .int v => s!"i{v}"
+  | .dbl t => s!"d{hex t}"
+  | .str b => s!"s{hex b}"
+  | .flag b => if b then "f1" else "f0"
+
+def showOutcome : Outcome → String
+  | .ok => "ok" | .threwLogic => "logic"
+  | .threwError => "error" | .threwInvalid => "invalid"
+
+def showErr : Err → String
+  | .unknown n => s!"u{hex n}"
+  | .flagArg n => s!"a{hex n}"
+
+def joinOr (dflt : String) (l : List String) : String :=
+  if l.isEmpty then dflt else ",".intercalate l
+
+def showSlot (d : OptDecl) (sl : Slot) : String :=
+  if d.isWildcard then "w" ++ "".intercalate (sl.log.reverse.map (fun e => s!"({hex e.1}:{showVal e.2})"))
+  else showVal sl.val
+
+def showResult (cid : String) (decls : List OptDecl) (r : Outcome × St) : String :=
+  match r.1 with
+  | o =>
+    let st := r.2
+    let ret := match o with | .ok => (if st.errs.isEmpty then "1" else "0") | _ => "-"
+    let errs := joinOr "-" (st.errs.reverse.map showErr)
+    let vals := joinOr "-" (decls.map (fun d => showSlot d (st.slot d.id)))
+    let echo := joinOr "-" (st.echo.reverse.map (fun e => match e.2 with
+      | some v => s!"{hex e.1}={showVal v}" | none => hex e.1))
+    s!"R {cid} {showOutcome o} {ret} | {errs} | {vals} | {echo}"
+
+abbrev Tables := Std.HashMap String (List OptDecl)
+
+def handle (tabs : Tables) (line : String) : Tables × String :=
+  match line.trimAscii.toString.splitOn " " with
+  | ["T", tid] => (tabs.insert tid [], s!"T {tid}")
+  | ["O", tid, kind, chk, names] =>
+    match tabs[tid]?, parseKind kind, parseChk chk, (names.splitOn ",").mapM unhex with
+    | some decls, some k, some c, some (n :: syns) =>
+      let d : OptDecl := { id := decls.length, name := n, syns := syns, kind := k, chk := c }
+      (tabs.insert tid (decls ++ [d]), s!"O {tid} {decls.length}")
+    | _, _, _, _ => (tabs, "bad-op")
+  | ["C", cid, tid, ne, cl, th, solver, exe, env, argv] =>
+    match tabs[tid]?, parseBool ne, parseBool cl, parseBool th, unhex solver, unhex exe, parseEnv env, parseArgv argv with
+    | some decls, some ne, some cl, some th, some solver, some exe, some env, some argv =>
+      let call : Call := { table := buildTable decls, solverName := solver, exePath := exe, env := env,
+                           argv := argv, noEcho := ne, cmdLineFlag := cl, throwing := th }
+      (tabs, showResult cid decls (parseOptions call (initState decls)))
+    | _, _, _, _, _, _, _, _ => (tabs, "bad-op")
+  | _ => (tabs, "bad-op")
+
+partial def loop (h : IO.FS.Stream) (out : IO.FS.Stream) (tabs : Tables) : IO Unit := do
+  let line ← h.getLine
+  if line.isEmpty then return ()
+  let (tabs', res) := handle tabs line
+  out.putStrLn res
+  loop h out tabs'
+
+def main : IO Unit := do
+  let out ← IO.getStdout
+  loop (← IO.getStdin) out {}
